@@ -873,7 +873,10 @@ class TmuxLife:
         except OSError:
             port_open = False
         self.mark({"ev": "exit", "status": self.status() if gone else -1, "tio": classify_termios(now),
-                   "tio_same": now[:6] == self.termios_before[:6] and now[6] == self.termios_before[6], "kinds": kinds, "temps": sorted(owners),
+                   "tio_same": now[:6] == self.termios_before[:6] and now[6] == self.termios_before[6],
+                   "tio_diff": [i for i in range(6) if now[i] != self.termios_before[i]] +
+                               [100 + i for i in range(min(len(now[6]), len(self.termios_before[6]))) if now[6][i] != self.termios_before[6][i]],
+                   "kinds": kinds, "temps": sorted(owners),
                    "port": port_open, "alive": self.alive, "panic": has_panic(raw) or has_panic(screen), "gone": gone, "emu": emu})
         merged = [((off, 1, i), {"ev": "mode", "m": name, "on": on}) for i, (off, name, on) in enumerate(mode_events(raw))]
         merged += [((off, 0, i), ev) for off, i, ev in self.marks]
